@@ -967,4 +967,56 @@ theorem timerP_data (hc : Ctx off w Pv ts) (h : GE Pv ts e s) :
         refine Sat.bind (Sat.perrE ?_)
         exact hjp1 _ _ (g3.err hc (one_label (hrm.tokensSpan hne'))) hcs3
       · exact hjp1 _ _ g3 hcs3
+
+/-! ### `readModifiers`, read flag by flag -/
+
+theorem sdat_and_or_self (a f : Nat) : (a &&& f) ||| f = f := by
+  apply Nat.eq_of_testBit_eq
+  intro i
+  rw [Nat.testBit_or, Nat.testBit_and]
+  cases a.testBit i <;> cases f.testBit i <;> rfl
+
+theorem sdat_contains_insert_self (m : Modifiers) (f : Nat) : (m.insert f).contains f = true := by
+  unfold Modifiers.contains Modifiers.insert
+  simp only [Nat.and_or_distrib_right, Nat.and_self, sdat_and_or_self, beq_self_eq_true]
+
+theorem sdat_contains_insert_other (m : Modifiers) (g f : Nat) (h : g &&& f = 0) :
+    (m.insert g).contains f = m.contains f := by
+  unfold Modifiers.contains Modifiers.insert
+  simp only [Nat.and_or_distrib_right, h, Nat.or_zero]
+
+theorem sdat_flag_cases (k : TK) (f : Nat)
+    (hf : f ∈ [Modifiers.RECIPE, Modifiers.REF, Modifiers.HIDDEN, Modifiers.OPT, Modifiers.NEW]) :
+    ((modifierFlag k).getD 0 = f ∧ (modifierFlag k == some f) = true) ∨
+    ((modifierFlag k).getD 0 &&& f = 0 ∧ (modifierFlag k == some f) = false) := by
+  simp only [List.mem_cons, List.not_mem_nil, or_false] at hf
+  rcases hf with rfl | rfl | rfl | rfl | rfl <;> cases k <;> decide
+
+/-- one token: the flag `f` is set afterwards iff it was set before or the token is the character of `f` -/
+theorem sdat_modInsert_contains (m : Modifiers) (t : Tok) (f : Nat)
+    (hf : f ∈ [Modifiers.RECIPE, Modifiers.REF, Modifiers.HIDDEN, Modifiers.OPT, Modifiers.NEW]) :
+    (modInsert m t).contains f = (m.contains f || modifierFlag t.kind == some f) := by
+  unfold modInsert
+  rcases sdat_flag_cases t.kind f hf with ⟨h1, h2⟩ | ⟨h1, h2⟩
+  · rw [h1, h2, sdat_contains_insert_self, Bool.or_true]
+  · rw [h2, sdat_contains_insert_other _ _ _ h1, Bool.or_false]
+
+theorem sdat_foldl_contains (l : List Tok) (m : Modifiers) (f : Nat)
+    (hf : f ∈ [Modifiers.RECIPE, Modifiers.REF, Modifiers.HIDDEN, Modifiers.OPT, Modifiers.NEW]) :
+    (l.foldl modInsert m).contains f = (m.contains f || l.any (fun t => modifierFlag t.kind == some f)) := by
+  induction l generalizing m with
+  | nil => simp
+  | cons t r ih => rw [List.foldl_cons, ih, sdat_modInsert_contains m t f hf, List.any_cons, Bool.or_assoc]
+
+/-- **what `readModifiers` reads**: the flag of a modifier character is set iff that character occurs among the
+    tokens outside the parenthesised groups -/
+theorem readModifiers_contains (toks : List Tok) (f : Nat)
+    (hf : f ∈ [Modifiers.RECIPE, Modifiers.REF, Modifiers.HIDDEN, Modifiers.OPT, Modifiers.NEW]) :
+    (readModifiers toks).contains f = (modTop false toks).any (fun t => modifierFlag t.kind == some f) := by
+  unfold readModifiers
+  rw [sdat_foldl_contains _ _ _ hf]
+  have : Modifiers.empty.contains f = false := by
+    simp only [List.mem_cons, List.not_mem_nil, or_false] at hf
+    rcases hf with rfl | rfl | rfl | rfl | rfl <;> decide
+  rw [this, Bool.false_or]
 end Cook
